@@ -143,7 +143,7 @@ pub fn run(ctx: &Ctx) -> i32 {
     let joined_tmp = sut::TempFiles::new(&[b"{\"k\":\"a\",\"y\":1}\nnoise\n{\"k\":\"a\",\"y\":2}\n{\"k\":\"c\",\"y\":3}\n{\"y\":4}\n"]);
     let mut stmts = statements();
     stmts.extend(statements2(&joined_tmp.paths[0]));
-    let depth = ctx.tier.pick(4, 5);
+    let depth = ctx.tier.pick(4, 7);
     let k = jlines().len() as u8;
     let mut complete = true;
     let mut done_stmts = 0;
